@@ -9,13 +9,14 @@ ALL = [f"C{i:02d}" for i in range(1, 21)]
 # property -> (technique, level text, level note, design ref)
 CLAIMED = {
     "C04": ("Lean 4 proof: invariant by induction over operation sequences (carrier-independent) + op-sequence "
-            "correspondence model/implementation",
+            "correspondence model/implementation + control-flow IR of check/spend regenerated from the Python source on every run and proved equal to the model's step",
             "Machine-checked: for every finite operation sequence on every carrier (IEEE doubles included) the accountant's "
             "own total passes the very comparison the code performs against the ceiling (run_fits/new_fits), refused "
             "operations are no-ops, spends are append-only; over R this is total <= ceiling (total_le_ceiling). The Lean "
             "model is the executable definition the driver runs; it is compared op by op, bit for bit at slack 0, with the "
             "real BudgetAccountant on generated sequences on every run, and the invariant is also checked directly on "
-            "the implementation (incl. exact rational recomputation).",
+            "the implementation (incl. exact rational recomputation). "
+            "CONTROL-FLOW TIE (harness/translate/accountantir.py, DPL/Model/AccountantIR.lean): the bodies of check, spend and the slack setter (with the comparison operators of utils.Budget they use) are re-read from /repo's AST on every run, emitted as IR terms, and the generated obligations prove that the IR interpreter run on them IS the model's step function for any carrier (genCheck_ok, genSpend_ok, genSetSlack_ok, getters_ok, total_returns_budget); accountant_methods_as_coded, run_coded_fits, and check_lt_cex / check_no_delta_cex / spend_append_first_cex show the tie discriminates.",
             "Trusted: Lean kernel + Mathlib, axioms propext/Classical.choice/Quot.sound; hand-written model tied to the "
             "code by sampled correspondence; float rounding of sums not modelled (1e-12 exact-arithmetic excess is "
             "checked, not proved).", "§6 C04"),
